@@ -43,6 +43,9 @@ def pool():
     scal = [0, 1, -1, 2, 7, -13, 10 ** 6, 2 ** 40, 0.5, -2.25, 1000.0, 0.1, 3.0, -0.0, True, False, None,
             '5', '-2', '1.5', ' 7 ', '1_0', '+3', '007', '.5', '5.', '-0', '1e2', 'abc', '', 'q1a', 'x y', 'TRUE', '#N/A',
             '2020-01-15', '2020-01-15 12:00:00', '1900-03-01',
+            # whole numbers that no double holds, as integers and as numeric text (the conversion must not pass through a double)
+            2 ** 53 + 1, -(2 ** 53) - 1, 10 ** 22 + 1, '9007199254740993', '-9007199254740993', '18014398509481985',
+            '123456789012345678901', ' 9007199254740993 ',
             D(1900, 1, 1), D(1900, 1, 2), D(1900, 2, 28), D(1900, 3, 1), D(2020, 1, 15), D(2020, 1, 15, 6, 0), D(1999, 12, 31, 23, 59, 59),
             D(2020, 1, 1, 12, 0, 0, 500000), D(1999, 12, 31, 23, 59, 59, 999000), D(2020, 1, 15, 6, 0, 0, 1000),
             D(9999, 12, 31), e.DIV_ZERO, e.NOT_AVAILABLE, e.VALUE, e.NAME]
@@ -68,6 +71,9 @@ def cases(rng, ctx):
         core = [(i, j) for i, j in pairs if i < 17 and j < 17]
         dts = [k for k, v in enumerate(allv) if isinstance(v, datetime.datetime)]
         core += [(i, j) for i in dts for j in dts] + [(i, j) for i in dts for j in range(17)] + [(j, i) for i in dts for j in range(17)]       # numbers, logicals, blank: complete
+        big = [k for k, v in enumerate(allv) if (isinstance(v, int) and abs(v) > 2 ** 53) or
+               (isinstance(v, str) and v.strip().lstrip('-').isdigit() and len(v.strip()) > 15)]
+        core += [(i, j) for i in big for j in list(range(17)) + big] + [(j, i) for i in big for j in range(17)]
         ars = [k for k, v in enumerate(allv) if isinstance(v, list)]
         core += [(i, j) for i in ars for j in ars]       # arrays against arrays (one-element collapse, nesting): complete
         pairs = core + rng.sample(pairs, k)
